@@ -32,7 +32,12 @@ type Affine struct {
 }
 
 // SliceV is a slice with known length whose elements live in cells.
-type SliceV struct{ Elems []*Cell }
+// SliceV: a slice kept by value. Cut marks a re-slice that stops short of its operand's end (x[:k], k < len(x)):
+// an append onto it writes into x's own elements when the capacity allows.
+type SliceV struct {
+	Elems []*Cell
+	Cut   bool
+}
 
 func (s *SliceV) String() string {
 	var p []string
